@@ -155,6 +155,7 @@ def check(run):
     run.floor("packed column counts", len(cols_list), 3)
 
     n_paths = 0
+    packed_returns = set()
     for cols in cols_list:
         it = Interp(cols=cols)
         p0 = Path({})
@@ -172,6 +173,8 @@ def check(run):
                                   key=key_of("C06-R2", "hashable_rows", cols, ast.unparse(e.node)))
         for q in packed_paths:
             n_paths += 1
+            if getattr(q, "returned", None):
+                packed_returns.add(id(q.returned[0]))
             where = f"{fi.where} [columns={cols}; guards: {' & '.join(q.guards)}]"
             bad = [e for e in q.events if e.kind == "overflow" or (e.kind == "shift" and not e.ok)]
             run.obligation("R2", where, "all intermediates stay inside int64/uint64", not bad)
@@ -235,19 +238,22 @@ def check(run):
 
     # ---- R4 void fallback
     arr = _packed_array(fi)
-    ok4 = False
-    for st in fi.node.body:
+    voids = []
+    for st in ast.walk(fi.node):
         if isinstance(st, ast.Assign) and "np.void" in ast.unparse(st.value):
             txt = ast.unparse(st.value).replace(" ", "")
-            ok4 = (f"{arr}.dtype.itemsize*{arr}.shape[1]" in txt) or (f"{arr}.shape[1]*{arr}.dtype.itemsize" in txt)
+            voids.append((f"{arr}.dtype.itemsize*{arr}.shape[1]" in txt) or (f"{arr}.shape[1]*{arr}.dtype.itemsize" in txt))
+    ok4 = bool(voids) and all(voids)
     run.obligation("R4", fi.where, "void dtype width == itemsize * shape[1]", ok4)
     if not ok4:
         run.violation("R4", fi.where, "the void-dtype fallback does not view exactly one row (itemsize * columns bytes) per element",
                       key=key_of("C06-R4", "void-width"))
     # fallback must be reached when the guard fails: the guarded block returns only inside the guard
+    # (a return of the packing block that is not nested in the range guard is acceptable only when no packing path ends
+    # there: what it returns is then not a packed word - the paths that pack are bounded by R1 whatever the layout)
     rets_outside_guard = [r for r in ast.walk(outer) if isinstance(r, ast.Return)
                           and not any(r in ast.walk(x) for x in [inner])]
-    ok4b = not rets_outside_guard
+    ok4b = not [r for r in rets_outside_guard if id(r) in packed_returns]
     run.obligation("R4", fi.where, "packing block returns only under the range guard (otherwise falls through to the exact fallback)", ok4b)
     if not ok4b:
         run.violation("R4", fi.where, "hashable_rows returns a packed value outside the range guard",
